@@ -347,6 +347,7 @@ vbi_bit_slicer_init(vbi_bit_slicer *slicer,
 	unsigned int c_mask = (unsigned int)(-(cri_bits > 0)) >> (32 - cri_bits);
 	unsigned int f_mask = (unsigned int)(-(frc_bits > 0)) >> (32 - frc_bits);
 	int gsh = 0;
+	int data_end;
 
 	slicer->func = bit_slicer_1;
 
@@ -475,6 +476,21 @@ vbi_bit_slicer_init(vbi_bit_slicer *slicer,
 			 + sampling_rate * 256.0 / bit_rate * .25 + 128);
 		break;
 	}
+
+	/* The payload loop has no data end check. When the CRI ends
+	   at sample n the last bit is read from sample n + (phase_shift
+	   + (frc_bits + payload - 1) * step) / 256 and its right
+	   neighbour for interpolation, the CRI search itself reads
+	   sample n + 1. We must stop searching before these samples
+	   lie beyond the end of the line. */
+	data_end = slicer->phase_shift;
+	if (payload + frc_bits > 0)
+		data_end += (payload + frc_bits - 1) * slicer->step;
+	data_end = (data_end >> 8) + 2;
+
+	slicer->cri_bytes = MIN (slicer->cri_bytes,
+				 raw_samples - data_end + 1);
+	slicer->cri_bytes = MAX (slicer->cri_bytes, 0);
 }
 
 /**
